@@ -62,7 +62,8 @@ def store_case(draw, tier="quick"):
             ctxs.append({"window": None, "streams": streams})
             break
     tests = sorted({e[1] for c in ctxs for es in c["streams"].values() for e in es})
-    pool = names + tests + [f"fn:{x}" for x in tests] + ["nothing_matches", ""]
+    # (the roll-up is a result like any other: selectable by its name or by the aggregate function)
+    pool = names + tests + [f"fn:{x}" for x in tests] + ["nothing_matches", "", "fn:aggregate", "fn:aggregate", "rollup", "aggregate"]
     flt = st.one_of(st.none(), st.just([]), st.lists(st.sampled_from(pool), min_size=1, max_size=3, unique=True))
     return {"table": tbl, "contexts": ctxs, "write_data": draw(st.booleans()), "write_axes": draw(st.booleans()),
             "include": draw(flt), "exclude": draw(flt), "aggregate": draw(st.sampled_from([None, None, "rollup", "qc agg", "1agg"])),
